@@ -208,6 +208,7 @@ class Engine:
         self.repo = repo
         self.sidecar = sidecar
         self.lemmas_used = set()
+        self.le_len = {}          # id of an integer term -> ids of sequence-length terms it is known not to exceed
         self.nonneg = set()       # ids of integer terms known to be >= 0 (bound indices, loop counters)
         self._nonneg_keep = []    # (keeps the terms alive so that ids are not reused)
         self.feas_cache = {}
@@ -1073,12 +1074,26 @@ class Exec:
             return 'list', v.arg(0)
         return None, None
 
+    def is_nonneg(self, t):
+        """structurally known to be >= 0: a numeral, a length, a bound index / loop counter, sums of those"""
+        if z3.is_int_value(t):
+            return t.as_long() >= 0
+        if t.get_id() in self.eng.nonneg:
+            return True
+        if z3.is_app(t):
+            k = t.decl().kind()
+            if k == z3.Z3_OP_SEQ_LENGTH:
+                return True
+            if k == z3.Z3_OP_ADD:
+                return all(self.is_nonneg(c) for c in t.children())
+        return False
+
     def index_of(self, v, idx, node):
         self.safe(is_int(idx), 'TypeError', 'index type', node)
         i = vl.simp(get_i(idx))
         # an index known to be non-negative (a bound index of forall_idx/exists_idx, a loop counter) needs
         # no wrap-around case
-        nonneg = i.get_id() in self.eng.nonneg or (z3.is_int_value(i) and i.as_long() >= 0)
+        nonneg = self.is_nonneg(i)
         kind, seq = self.seq_parts(v, node)
         if kind is None:
             # dynamic: tuple or list (strings need their own path)
@@ -1120,8 +1135,11 @@ class Exec:
                     if b is None:
                         return default
                     x = self.evv(b)
-                    i = get_i(x)
-                    r = z3.If(i < 0, z3.If(i + n_ < 0, 0, i + n_), z3.If(i > n_, n_, i))
+                    i = vl.simp(get_i(x))
+                    if self.is_nonneg(i):
+                        r = z3.If(i > n_, n_, i)
+                    else:
+                        r = z3.If(i < 0, z3.If(i + n_ < 0, 0, i + n_), z3.If(i > n_, n_, i))
                     return r if static_kind(x) == 'VInt' else z3.If(is_none(x), default, r)
                 lo_, hi_ = bnd(sl.lower, z3.IntVal(0)), bnd(sl.upper, n_)
                 return lo_, z3.If(hi_ > lo_, hi_ - lo_, 0)
@@ -1148,8 +1166,13 @@ class Exec:
                 return default
             x = self.evv(b)
             self.safe(z3.Or(is_int(x), is_none(x)), 'TypeError', 'slice bound', node)
-            i = get_i(x)
-            r = z3.If(i < 0, z3.If(i + n < 0, 0, i + n), z3.If(i > n, n, i))
+            i = vl.simp(get_i(x))
+            # bounds known to lie within the sequence (loop counters) need no wrap-around / clipping
+            inside = vl.simp(n).get_id() in self.eng.le_len.get(i.get_id(), ())
+            if self.is_nonneg(i):
+                r = i if inside else z3.If(i > n, n, i)
+            else:
+                r = z3.If(i < 0, z3.If(i + n < 0, 0, i + n), z3.If(i > n, n, i))
             if static_kind(x) == 'VInt':
                 return r
             return z3.If(is_none(x), default, r)
